@@ -45,19 +45,40 @@ def run_shard(shard, ctx):
         if kind == "nncontrol" and conv == "RN" and N > 3:
             continue
         R = 1 if conv == "R1" else N
-        for vi in vis:
-            if not ctx.case(dict(conv=conv, N=N, vi=vi)):
+        variants = [("Sigma", "fresh")]
+        if kind != "nncontrol":
+            variants += [("Lambda", "fresh"), ("all", "fresh"), ("Sigma", "updated"), ("Sigma", "sliced")] + ([("b_none", "fresh")] if not kind.startswith("identity") else [])
+        for vi, (ctor, prep) in [(v, va) for v in vis for va in variants]:
+            if (ctor, prep) != ("Sigma", "fresh") and vi not in (0, 100):
+                continue
+            if not ctx.case(dict(conv=conv, N=N, vi=vi, ctor=ctor, prep=prep)):
                 continue
             tag = ("c10", kind, Dx, Dy, conv, N)
             diag = kind in ("diag", "identity_diag")
             M = objs.mat_batch(Dy, Dx, R, vi, seed, tag + ("M",))
             b = objs.vecn_batch(Dy, R, vi, seed, tag + ("b",))
             Sy = objs.spd_batch(Dy, R, vi, seed, tag + ("Sy",), diag=diag)
-            cond, kw, (M, b, Sy) = objs.mk_cond(kind, M, b, Sy)
+            with ctx.guard("prepare." + prep, dict(ctor=ctor, prep=prep)) as g:
+                if prep == "updated":
+                    # built with another noise covariance, then updated in place before set_y
+                    cond, kw, (M, b, _) = objs.mk_cond(kind, M, b, Sy * 2.5, ctor=ctor)
+                    cond.update_Sigma(J(Sy))
+                elif prep == "sliced":
+                    M2 = np.concatenate([M[:1] * -0.5 + 1.0, M], axis=0)
+                    b2 = np.concatenate([b[:1] + 3.0, b], axis=0)
+                    Sy2 = np.concatenate([Sy[:1] * 2.0, Sy], axis=0)
+                    big, kw, (Mb, bb, Syb) = objs.mk_cond(kind, M2, b2, Sy2, ctor=ctor)
+                    idx = list(range(-R, 0))
+                    cond = big.slice(jnp.array(idx))
+                    M, b, Sy = Mb[idx], bb[idx], Syb[idx]
+                else:
+                    cond, kw, (M, b, Sy) = objs.mk_cond(kind, M, b, Sy, ctor=ctor)
+            if not g.ok:
+                continue
             y = al.points(N, Dy, salt=vi + 1)
             Nx = 2 if N != 2 else 3
             x = al.points(Nx, Dx, salt=vi)
-            facts = dict(conv=conv, N=N, R=R, nterms=1)
+            facts = dict(conv=conv, N=N, R=R, nterms=1, ctor=ctor, prep=prep)
             if vi == 0 and N == 2:
                 ctx.sample(dict(shard=shard["id"], conv=conv, M=M, b=b, Sigma=Sy, y=y, x=x))
             with ctx.guard("set_y.call", facts) as g:
